@@ -106,6 +106,37 @@ def run(facts, res):
             res.violation("L1", "%s|mutator:%s" % (b.path, n),
                           "%s mutates the revision map with `%s`, which is not one of the order-insensitive forms (insert-if-absent by revision, retain on the staging flag, per-entry flag reset)" % (b.path, n), b.loc(t.line))
 
+    # L1b (added after seed C07-g1): every insertion into the revision map invalidates the derived leaf / winner caches: the
+    # function that inserts assigns the non-validated state on every path from the insertion to its return (or re-validates)
+    n1b = 0
+    for (b, bi, t) in muts:
+        if not (t.callee.name == "insert" or (t.callee.name == "entry")):
+            continue
+        if t.callee.name == "entry" and any(tt.callee is not None and "VacantEntry" in (tt.callee.path + (tt.callee.self_ty or "")) and tt.callee.name == "insert" for _, tt in b.calls()):
+            continue        # counted at the VacantEntry::insert site
+        n1b += 1
+        bcfg = cfg_of(b)
+        inval = []
+        for blk in b.blocks:
+            if blk.cleanup:
+                continue
+            for st in blk.stmts:
+                if st.kind == "assign" and st.place.proj and st.place.proj[-1]["k"] == "field" and st.place.proj[-1]["n"] == "state" and \
+                        st.place.proj[-1].get("of") == TREE:
+                    vt = du_of(b).rvalue_term(st.rv, 6)
+                    if any(x[0] == "agg" and x[2] == "NonValidated" for x in walk(vt)) or (vt[0] == "const"):
+                        inval.append(blk.idx)
+            tt = blk.term
+            if tt.kind == "call" and tt.callee is not None and tt.callee.target() == TREE + "::validate":
+                inval.append(blk.idx)
+        ok = any(x == bi or bcfg.postdominates(x, bi) for x in inval)
+        res.instance("L1", "%s: every path from the insertion to the return invalidates (or recomputes) the leaf / winner caches: %s" % (b.path, ok), b.loc(t.line))
+        if not ok:
+            res.violation("L1", "%s|insertion-without-invalidation" % b.path,
+                          "%s can insert a revision and return without marking the tree non-validated: operations that re-validate only non-validated trees "
+                          "(or none at all) keep stale leaves / winner, e.g. a resolution marker that arrives from another replica does not seal its leaf" % b.path, b.loc(t.line))
+    res.floor("L1", "insertions into the revision map checked for invalidation", n1b, 1)
+
     # ------------------------------------------------------------------ L2
     v = facts.body("revisiontree::RevisionTree::validate")
     if v is None:
